@@ -455,7 +455,7 @@ func ruleC18Hash(c *Ctx) {
 }
 
 func ruleC18IndexContracts(c *Ctx) {
-	c.Doc("c18.index-contracts", "first returns element 0 of args[0] under len > 0 and NULL otherwise; last returns element len-1 under len > 0; elementat returns element index under 0 <= index < len and an error otherwise (two-sided, proven from dominating guards) with index the integer value of args[1]; a NULL array yields NULL; unwind appends item... for []any items and item otherwise (one level, no recursion); array returns its args; concat writes the %v text of each argument once, in index order")
+	c.Doc("c18.index-contracts", "first returns element 0 of args[0] under len > 0 and NULL otherwise; last returns element len-1 under len > 0; elementat returns NULL for an empty array, element index under 0 <= index < len and an error otherwise (two-sided, proven from dominating guards) with index the integer value of args[1]; a NULL array yields NULL; unwind appends item... for []any items and item otherwise (one level, no recursion); array returns its args; concat writes the %v text of each argument once, in index order")
 	reg := c.registry()
 	for _, n := range []string{"first", "last", "elementat"} {
 		f := reg[n]
@@ -544,6 +544,26 @@ func ruleC18IndexContracts(c *Ctx) {
 		}
 		if !sawOut {
 			why = append(why, "no path handles an index outside the array")
+		}
+		if n == "elementat" {
+			// an empty array yields NULL, like its siblings: a path that knows len == 0 returns (nil, nil)
+			sawEmpty := false
+			for _, p := range paths {
+				if p.Exit != "return" || p.final == nil {
+					continue
+				}
+				for k, r := range p.final.rng {
+					if strings.HasPrefix(k, "builtin:len(") && r[1] == 0 {
+						sawEmpty = true
+						if !p.Ret[0].Nil || !p.Ret[1].Nil {
+							why = append(why, "elementat of an empty array does not return NULL")
+						}
+					}
+				}
+			}
+			if !sawEmpty {
+				why = append(why, "elementat has no path for the empty array: ELEMENTAT([], 0) is an error where FIRST([]) and LAST([]) are NULL")
+			}
 		}
 		c.Check(len(why) == 0, "c18.index-contracts", "registered:"+n, c.P.Pos(f.Pos()), "two-sided bound proven; reference element; out of range handled", strings.Join(uniq(why), "; "))
 	}
@@ -654,9 +674,9 @@ func ruleC18IndexContracts(c *Ctx) {
 				for _, e := range p.Effects {
 					if e.Kind == "call" && strings.Contains(e.Callee, "WriteString") {
 						writes++
-						a, ok := callArgs(e.Args[len(e.Args)-1], "fmt.Sprintf")
-						if !ok || a[0].Name != `"%v"` || !elemOfLoop(a[1], lp) {
-							why = append(why, "concat writes "+e.Args[len(e.Args)-1].String()+" instead of the %v text of the argument")
+						a, ok := callArgs(e.Args[len(e.Args)-1], "TextOf")
+						if !ok || len(a) != 1 || !elemOfLoop(a[0], lp) {
+							why = append(why, "concat writes "+e.Args[len(e.Args)-1].String()+" instead of the textual form (TextOf) of the argument")
 						}
 					}
 				}
@@ -817,8 +837,9 @@ func ruleC18Selection(c *Ctx) {
 		_ = arms
 		want := map[string]func(*Term) bool{
 			"string": func(t *Term) bool {
-				a, ok := callArgs(t, "fmt.Sprintf")
-				return ok && a[0].Name == `"%v"` && onlyArg(a[1], "0")
+				// the textual form: TextOf (floats without an exponent, so that string -> double -> string round-trips)
+				a, ok := callArgs(t, "TextOf")
+				return ok && len(a) == 1 && onlyArg(a[0], "0")
 			},
 			"double": func(t *Term) bool {
 				x := ext0(t)
@@ -1093,4 +1114,145 @@ func ruleC18ArgReader(c *Ctx) {
 		}
 	}
 	c.Check(len(why) == 0, "c18.arg-reader", "FuncArgReader", c.P.Pos(f.Pos()), "fresh non-nil list; one unwrapped evaluation per argument, in order", strings.Join(uniq(why), "; "))
+}
+
+
+func init() { register("C18", ruleC18TextOf) }
+
+// ruleC18TextOf: the textual form of a value.
+func ruleC18TextOf(c *Ctx) {
+	c.Doc("c18.text-of", "textual form (TextOf): a float64/float32 is written by strconv.FormatFloat(v, 'f', -1, bits) — the shortest exact decimal text without an exponent, so that CONCAT('id-', 1000000) is id-1000000 and CHANGETYPE(CHANGETYPE('1234567','double'),'string') returns '1234567' — and every other value by %v; the integer conversion (ToInt) parses that same text")
+	f := c.P.Func(modPath, "TextOf")
+	if f == nil {
+		c.Fail("c18.text-of", "TextOf", "-", "no textual-form helper: numbers are rendered by %v (1000000 becomes 1e+06)")
+		return
+	}
+	c.Fn("TextOf")
+	var why []string
+	paths, err := WalkFunc(f, WalkCfg{MaxVisits: 1})
+	if err != nil {
+		why = append(why, err.Error())
+	}
+	sawFloat := false
+	for _, p := range paths {
+		if p.Exit != "return" || len(p.Ret) != 1 {
+			continue
+		}
+		kind := ""
+		for _, k := range p.Order {
+			kt := p.KeyTerm[k]
+			if kt != nil && kt.Op == "ext" && kt.Name == "1" && kt.Args[0].Op == "assertok" {
+				if v, _ := p.Assumed(k); v && kind == "" {
+					kind = kt.Args[0].Name
+				}
+			}
+		}
+		r := p.Ret[0].T
+		if kind == "float64" || kind == "float32" {
+			sawFloat = sawFloat || kind == "float64"
+			a, ok := callArgs(r, "strconv.FormatFloat")
+			if !ok || len(a) != 4 || a[1].Name != "102" || a[2].Name != "-1" {
+				why = append(why, "a "+kind+" is rendered by "+termStr(r)+", not by FormatFloat(v, 'f', -1, bits)")
+			}
+		} else if a, ok := callArgs(r, "fmt.Sprintf"); !ok || a[0].Name != `"%v"` {
+			why = append(why, "a non-float value is rendered by "+termStr(r))
+		}
+	}
+	if !sawFloat {
+		why = append(why, "TextOf has no float64 arm")
+	}
+	if ti := c.P.Func(modPath, "ToInt"); ti != nil {
+		uses := false
+		allInstrs(ti, func(_ *ssa.BasicBlock, in ssa.Instruction) {
+			if call, ok := in.(*ssa.Call); ok && call.Common().StaticCallee() == f {
+				uses = true
+			}
+		})
+		if !uses {
+			why = append(why, "ToInt does not parse the textual form: CHANGETYPE(1234567, 'integer') fails on the exponent text")
+		}
+	}
+	c.Check(len(why) == 0, "c18.text-of", "TextOf", c.P.Pos(f.Pos()), "floats without an exponent, everything else by %v; ToInt parses it", strings.Join(uniq(why), "; "))
+}
+
+func init() { register("C18", ruleC18HashStable) }
+
+// ruleC18HashStable: a hash depends on its argument only, not on the process history.
+func ruleC18HashStable(c *Ctx) {
+	c.Doc("c18.hash-stable", "HASH: the hashed bytes are a gob stream, and gob writes into a stream the id it gave the encoded type, assigned process-wide in order of first use; an init function of the package therefore encodes a value of exactly the struct type that the hash preimage encodes, before any query can run (the id is the same in every process, whatever was gob-encoded before the first HASH call); arrays are broken down element by element and never handed to gob (which does not know []any)")
+	hp := c.P.Func(modPath, "HashPreimage")
+	h := c.registry()["hash"]
+	var why []string
+	if h == nil {
+		c.Unknown("c18.hash-stable", "registered:hash", "-", "anchor lost")
+		return
+	}
+	// the struct type(s) the hash path gob-encodes
+	enc := map[string]bool{}
+	seen := map[*ssa.Function]bool{}
+	var visit func(g *ssa.Function, d int)
+	visit = func(g *ssa.Function, d int) {
+		if seen[g] || d > 3 || !c.P.InModule(g) {
+			return
+		}
+		seen[g] = true
+		allInstrs(g, func(_ *ssa.BasicBlock, in ssa.Instruction) {
+			call, ok := in.(*ssa.Call)
+			if !ok {
+				return
+			}
+			if cal := call.Common().StaticCallee(); cal != nil {
+				if cal.Name() == "Encode" && strings.Contains(cal.String(), "encoding/gob") && len(call.Call.Args) == 2 {
+					if mi, isMI := call.Call.Args[1].(*ssa.MakeInterface); isMI {
+						enc[mi.X.Type().String()] = true
+					}
+				}
+				visit(cal, d+1)
+			}
+		})
+	}
+	visit(h, 0)
+	if len(enc) == 0 {
+		why = append(why, "the hash path encodes nothing with gob (anchor lost)")
+	}
+	primed := map[string]bool{}
+	for _, f := range c.P.ModFuncs {
+		if !strings.HasPrefix(f.Name(), "init") || f.Parent() != nil {
+			continue
+		}
+		allInstrs(f, func(_ *ssa.BasicBlock, in ssa.Instruction) {
+			call, ok := in.(*ssa.Call)
+			if !ok {
+				return
+			}
+			if cal := call.Common().StaticCallee(); cal != nil && cal.Name() == "Encode" && strings.Contains(cal.String(), "encoding/gob") && len(call.Call.Args) == 2 {
+				if mi, isMI := call.Call.Args[1].(*ssa.MakeInterface); isMI {
+					primed[mi.X.Type().String()] = true
+				}
+			}
+		})
+	}
+	for t := range enc {
+		if !primed[t] {
+			why = append(why, "the type "+t+" gets its gob id at the first HASH call: HASH('test data','sha1') differs between a fresh process and one that gob-encoded another type first")
+		}
+	}
+	if hp == nil {
+		why = append(why, "no array-aware preimage (HashPreimage): HASH of an array fails with gob: type not registered")
+	} else {
+		c.Fn("HashPreimage")
+		rec, arr := false, false
+		allInstrs(hp, func(_ *ssa.BasicBlock, in ssa.Instruction) {
+			if call, ok := in.(*ssa.Call); ok && call.Common().StaticCallee() == hp {
+				rec = true
+			}
+			if ta, ok := in.(*ssa.TypeAssert); ok && shortType(ta.AssertedType) == "[]any" {
+				arr = true
+			}
+		})
+		if !rec || !arr {
+			why = append(why, "HashPreimage does not break arrays down element by element")
+		}
+	}
+	c.Check(len(why) == 0, "c18.hash-stable", "registered:hash", c.P.Pos(h.Pos()), "gob id primed in init; arrays element-wise", strings.Join(uniq(why), "; "))
 }
